@@ -20,5 +20,7 @@ Next == (CallSkipWS \/ CallEol \/ CallToken \/ CallChar \/ CallPeek \/ CallDotBa
 Spec == Init /\ [][Next]_vars
 
 CoordsTrue == p.line = TrueLine(text, p.i) /\ p.col = TrueCol(text, p.i)
+\* C01: the cursor never leaves the buffer (operator-- has no lower-bound test in the code: every step back follows an advance)
+CursorInBounds == p.i >= 1 /\ p.i <= Len(text) + 1
 
 =============================================================================
